@@ -754,13 +754,31 @@ func c17Walk(tree ast.Stmt, f astutil.WalkFunc) (o c17WalkOut) {
 // per worker process: report each signature a few times only, count the rest
 var c17Reported = map[string]int{}
 
+// Phase history (c17_r5hist.go) judges walks made after many earlier walks of the
+// same process were stopped by their callback: c17SigPrefix marks the signatures of
+// what it finds ("after-stopped-walks:"), c17HistInfo describes the history for the
+// detail text and the witness. Both are empty / nil in every other phase.
+var (
+	c17SigPrefix string
+	c17HistInfo  func() map[string]interface{}
+	c17ViolCount int // violations found by this process (written or not)
+)
+
 func c17Viol(c *wk.Case, sig, detail, src string) {
+	c17ViolCount++
+	sig = c17SigPrefix + sig
 	c17Reported[sig]++
 	if c17Reported[sig] > 3 {
 		c.Count("violations_repeated_not_written", 1)
 		return
 	}
-	c.Violation(sig, detail, map[string]interface{}{"src": src})
+	in := map[string]interface{}{"src": src}
+	if c17HistInfo != nil {
+		h := c17HistInfo()
+		in["history"] = h
+		detail += fmt.Sprintf(" [history of this process: %v walks were stopped by their callback before this walk, at nesting levels summing to %v; %v]", h["stopped_walks"], h["nesting_levels_sum"], h["mode"])
+	}
+	c.Violation(sig, detail, in)
 }
 
 // c17Check judges one parsed tree: the whole program (whole=true), or — only
@@ -1383,6 +1401,10 @@ func init() {
 			if tier == "thorough" {
 				nDeepGen = 3000
 			}
+			nHist := 2 * len(c17HistModes)
+			if tier == "thorough" {
+				nHist = 10 * len(c17HistModes)
+			}
 			return fw.Plan{
 				Level: "exploration",
 				Rule: "phase matrix (deterministic): every expression template (one per grammar production) placed in every expression hole of every statement/expression template, " +
@@ -1396,6 +1418,11 @@ func init() {
 					"in rotating statement contexts, with an operator-rich payload at the bottom and operator expressions in the holes off the spine; every block-holding template nested in itself through each block hole, 300..2000 levels; " +
 					"operator chains of 1000..3000 operators; lists (statements, arguments, array/map members, else-if arms, switch cases, assignment sides, return/var lists) of 1000..3000 members. " +
 					"phase deepgen: PRNG spines mixing 1-11 (template, hole) pairs per program, depth 500..3000 (block spines 200..1500), random fillers and payload; in both deep phases the abort sweep draws 8 positions (thorough 16) and the overlapping-walk part is run for trees of at most 2000 nodes only; a program whose shared nodes (`x += e` holds x twice) make the unfolded tree exceed 600000 entries is excluded. " +
+					"phase history (c17_r5hist.go; every case its own process): probe programs (six fixed small programs covering every statement kind, four drawn from the matrix, and the trees to be stopped) are judged in the fresh process, " +
+					"then walks are stopped by the callback in four rounds (2%, 8%, 30%, 60% of a budget of 24 million callback calls, thorough 300 million) and the small probes are judged again after every round, the stopped trees after the last; " +
+					"modes by case index: one parenthesised expression spine of 1500..3000 levels / one block spine of 300..1500 levels / one raw expression spine (random template and hole), stopped at PRNG positions of which 70% lie in the deepest 40% of the levels (thousands of stopped walks, nesting levels at the stops summing to millions); " +
+					"forty small programs each stopped at every position in turn (hundreds of thousands of stopped walks); a deep spine stopped by four goroutines at once; a deep spine stopped from inside the callback of a complete walk of a small tree. " +
+					"Every stopped walk is judged (k calls, the callback's error returned), a small tree is walked completely after every 256 of them; signatures found after the first stopped walk carry the prefix after-stopped-walks:. " +
 					"For every program: node set + parent relation by reflection (astx) versus the sequence " +
 					"astutil.Walk presents; a panic of Walk (walk-panic:<site>) and a callback argument that is nil, a typed nil pointer (presented-nil:<Type>) or no node value at all (presented-non-node:<Type>) are violations; " +
 					"after a Walk error or panic every statement of the program is judged again on its own; then the callback fails at call k for every k (programs with <=64 calls) or a PRNG sample of k. " +
@@ -1409,6 +1436,7 @@ func init() {
 					"'returns that error' is judged by identity: Walk must return the very error value the callback returned (err == stop); an error that wraps it (errors.Is) or copies its text is a different error",
 					"deep/deepgen: a program nested thousands of levels deep or holding lists of thousands of members is a parseable program like any other; programs the parser rejects (or cannot parse) are outside the domain",
 					"programs that do not parse are outside the domain",
+					"history: the statement holds for every walk of a process, whatever the earlier walks of that process did; stopping a walk by a callback error is the documented way of ending it, so any number of stopped walks may precede a complete one. Callbacks that panic are not part of any history (the statement is silent about them)",
 				},
 				Phases: []fw.Phase{
 					{Name: "matrix", Cases: nFixed + 1, Chunk: (nFixed + 16) / 16, TimeoutS: 600},
@@ -1418,6 +1446,8 @@ func init() {
 					// kill its own worker, not the machine)
 					{Name: "deep", Cases: nDeep, Chunk: (nDeep + 15) / 16, Jobs: 2, MemMB: 3072, TimeoutS: 900},
 					{Name: "deepgen", Cases: nDeepGen, Chunk: (nDeepGen + 15) / 16, Jobs: 2, MemMB: 3072, TimeoutS: 900},
+					// histories of stopped walks: one process per case
+					{Name: "history", Cases: nHist, Chunk: 1, Jobs: 4, MemMB: 3072, TimeoutS: 900},
 				},
 			}
 		},
@@ -1446,6 +1476,8 @@ func init() {
 				c17RunDeep(c)
 			case "deepgen":
 				c17RunDeepGen(c)
+			case "history":
+				c17RunHistory(c)
 			case "gen":
 				g := &c17Gen{r: c.Rng}
 				for n := 0; n < 10; n++ {
